@@ -172,3 +172,81 @@ def _path_codec_lemma():
 
 
 R.lemma("path_codec", "C07", _path_codec_lemma)
+
+
+# ---------------------------------------------------------------- frame clause: the reader is a function of the files
+# "A delta-mode snapshot ... read back with its baseline present returns the full payload": what read_snapshot
+# returns may depend only on its arguments and on the files it reads.  Frame obligation (Engine F, AST): neither the
+# reader / the delta writer nor any same-module function they (transitively) call keeps state between calls --
+# no `global` / `nonlocal` rebinding, no reference to a module-level *mutable container* (dict / list / set /
+# OrderedDict / defaultdict / deque literal or constructor), no memoising decorator (lru_cache / cache), no mutable
+# default argument used as a store.  A per-process memo of baselines (keyed by etag, say) violates exactly this.
+from pyvc.effects import result as _fres
+from pyvc import frontend as _fe
+
+SNAP = "clematis/engine/snapshot.py:"
+_MUT_CTORS = {"dict", "list", "set", "OrderedDict", "defaultdict", "deque", "Counter", "WeakValueDictionary"}
+_MEMO_DECOS = {"lru_cache", "cache", "cached_property", "memoize"}
+
+
+def _is_mutable_ctor(e):
+    if isinstance(e, (ast.Dict, ast.List, ast.Set, ast.DictComp, ast.ListComp, ast.SetComp)):
+        return True
+    if isinstance(e, ast.Call):
+        f = e.func
+        nm = f.id if isinstance(f, ast.Name) else f.attr if isinstance(f, ast.Attribute) else None
+        return nm in _MUT_CTORS
+    return False
+
+
+def reader_keeps_no_state(cl, mod, cls, func):
+    out = []
+    mutable_globals = {}
+    for st in mod.tree.body:
+        tgt, val = None, None
+        if isinstance(st, ast.Assign) and len(st.targets) == 1 and isinstance(st.targets[0], ast.Name):
+            tgt, val = st.targets[0].id, st.value
+        elif isinstance(st, ast.AnnAssign) and isinstance(st.target, ast.Name) and st.value is not None:
+            tgt, val = st.target.id, st.value
+        if tgt and tgt != "__all__" and _is_mutable_ctor(val):
+            mutable_globals[tgt] = st.lineno
+    # same-module call closure
+    seen, todo = {}, [func]
+    while todo:
+        f = todo.pop()
+        if f.name in seen:
+            continue
+        seen[f.name] = f
+        for n in ast.walk(f):
+            if isinstance(n, ast.Name) and isinstance(n.ctx, ast.Load) and n.id in mod.functions and n.id not in seen:
+                todo.append(mod.functions[n.id])
+    for name in sorted(seen):
+        f = seen[name]
+        bad = []
+        for d in f.decorator_list:
+            dn = d.func if isinstance(d, ast.Call) else d
+            dn = dn.attr if isinstance(dn, ast.Attribute) else getattr(dn, "id", "")
+            if dn in _MEMO_DECOS:
+                bad.append("memoising decorator @%s (line %d)" % (dn, d.lineno))
+        for a in list(f.args.defaults) + [x for x in f.args.kw_defaults if x is not None]:
+            if _is_mutable_ctor(a):
+                bad.append("mutable default argument (line %d)" % a.lineno)
+        params = {a.arg for a in f.args.args + f.args.kwonlyargs + f.args.posonlyargs}
+        local_stores = {n.id for n in ast.walk(f) if isinstance(n, ast.Name) and isinstance(n.ctx, ast.Store)}
+        for n in ast.walk(f):
+            if isinstance(n, (ast.Global, ast.Nonlocal)) and n is not f:
+                bad.append("%s %s (line %d)" % (type(n).__name__.lower(), ", ".join(n.names), n.lineno))
+            if isinstance(n, ast.Name) and n.id in mutable_globals and n.id not in params and n.id not in local_stores:
+                bad.append("module-level mutable container %s (defined line %d) used at line %d" % (n.id, mutable_globals[n.id], n.lineno))
+            if (isinstance(n, ast.Attribute) and isinstance(n.ctx, ast.Store) and isinstance(n.value, ast.Name)
+                    and n.value.id == f.name):
+                bad.append("function attribute store %s.%s (line %d)" % (f.name, n.attr, n.lineno))
+        nm = "%s/keeps-no-state-between-calls:%s" % (cl["name"], name)
+        out.append(_fres(nm, "failed" if bad else "proved", "; ".join(sorted(set(bad))), where=name))
+    return out
+
+
+for _fn in ("read_snapshot", "write_snapshot_auto", "load_latest_snapshot"):
+    R.fclause("C07", "frame/" + _fn, "custom", SNAP + _fn, fn=reader_keeps_no_state)
+for _fn in ("compute_delta", "apply_delta"):
+    R.fclause("C07", "frame/" + _fn, "custom", SD + _fn, fn=reader_keeps_no_state)
